@@ -974,6 +974,11 @@ def catalogue_avro(g):
     add("nest", "verifN_SliceStruct", [Field("A", S(inner)), Z()])
     add("nest", "verifN_MapStruct", [Field("A", M(inner)), Z()])
     add("nest", "verifN_OmitStruct", [Field("A", inner, 'json:"A,omitempty"'), Z()])
+    # a nested struct every field of which is optional on the wire: a non-nil pointer to an
+    # all-empty value is still a non-nil pointer
+    optinner = g.struct("verifOptInner", [Field("X", B("int64"), 'json:"x,omitempty"'), Field("P", P(B("int64"))), Field("S", B("string"), 'json:"s,omitempty"')])
+    cat["verifOptInner"] = optinner
+    add("nest", "verifN_PtrOptStruct", [Field("A", P(optinner)), Z()])
     add("deep", "verifD_PtrPtr", [Field("A", P(P(B("int64")))), Z()])
     add("deep", "verifD_PtrSlice", [Field("A", P(S(B("int64")))), Z()])
     add("deep", "verifD_PtrMap", [Field("A", P(M(B("int64")))), Z()])
